@@ -178,7 +178,12 @@ def run(E: Engine, rep: Report, tier: str) -> dict:
         rep.check(ok, "FLOW", f"Sequence.{nm}|records-computed-detuning_off", "the recorded optimal_detuning_off is the value computed by _process_eom_parameters",
                   f"{nm} no longer records the computed detuning_off (a rebuilt/deserialised sequence could pick a different off-detuning)", E.where(m))
     rep.floor("FLOW", 2)
-    return {"recordable_calls": len(rec), "ops": ops_all, "serializer_branches": len(branches)}
+    # ARGS: the serializer reads recorded positional arguments only where they must be positional
+    from .. import callargs
+
+    extra = callargs.check(E, rep, callargs.default_scopes(E, ("pulser.json.abstract_repr.serializer",)), "ARGS")
+    rep.floor("ARGS", 1)
+    return {"recordable_calls": len(rec), "ops": ops_all, "serializer_branches": len(branches), **extra}
 
 
 def _manual_record_shape(m):
